@@ -181,7 +181,20 @@ def run_shard(ctx):
         # money literals, sums, scaling, ratios and conversions without a connective need no words: every configured language reads them
         lang = 'en' if rng.random() < 0.75 else rng.choice(lex.languages())
         rates = Rates()
-        ops = [{'op': 'new_calc', 'seg': True}] + mon.gh.config_ops(cfg, seg=False)
+        if rng.random() < 0.2:
+            # "the configured rate table": a calculator built (load_from_json) from the shipped configuration text in which some rates
+            # were changed and a currency without a rate was given one
+            import os
+            from . import core
+            edits = []
+            for code in rng.sample(sorted(rates.r), 4) + [rng.choice([c_ for c_ in all_codes if c_ not in rates.r])]:
+                v = rng.choice([20.0, 0.5, 2.0, 123.456, 0.0125, 7.75, 1000.0])
+                edits.append(['/currency_rates/%s' % code, v])
+                rates.r[code] = Fraction(v)
+            ops = [{'op': 'new_calc_json', 'seg': True, 'c': 0, 'path': os.path.join(core.REPO, 'src/json/config.json'), 'set': edits}] + mon.gh.config_ops(cfg, seg=False)
+            res.count('histories_on_a_calculator_built_from_an_edited_rate_table')
+        else:
+            ops = [{'op': 'new_calc', 'seg': True}] + mon.gh.config_ops(cfg, seg=False)
         # a Session object that lives as long as the calculator: a third of the evaluations go through it ("a changed rate takes
         # effect in all later evaluations" - also in those of a session that converted the currency before the change)
         ops += [{'op': 'session_new', 's': 1}, {'op': 'session_set_language', 's': 1, 'lang': lang}]
